@@ -266,6 +266,15 @@ def gen_across(rng):
         for i in range(rng.randint(1, 5)):
             steps.append(fr(L + rng.choice([0, 3]), rng.choice([0, 2000, 9999]), L2))
         steps.append(dict(a="reset"))
+    elif rng.random() < 0.4:
+        # two FFC periods separated by one or two good frames (the streams still differ in those); identical from the
+        # first affected frame of the second period on
+        for i in range(rng.randint(1, 3)):
+            steps.append(fr(L + rng.choice([0, 3]), rng.choice([0, 2000, 9999]), L2))
+        for i in range(rng.choice([1, 1, 2])):
+            steps.append(fr(L, rng.choice([10001, 60000]), L2))
+        for i in range(rng.randint(1, 3)):
+            steps.append(fr(L + rng.choice([0, 3]), rng.choice([0, 2000, 9999])))
     else:
         for i in range(nper):
             steps.append(fr(L + rng.choice([0, 3]), rng.choice([0, 2000, 9999])))
